@@ -25,7 +25,7 @@ EXPL = {
  'read-back': 'the written model cannot be read back',
 }
 k = json.load(open('/verif/known/C02.json'))
-have = [e['clause'] for e in k['findings']]
+have = [e['clause'] for e in k['findings'] if 'clause' in e]
 n = 0
 for f in sorted(glob.glob('/verif/replays/C02/*.json')):
     o = json.load(open(f)); cl = o['clause']
